@@ -338,8 +338,11 @@ func GenScenario(t *rapid.T, p GenParams) Scenario {
 				b.Kind = "recoverable"
 			case 4:
 				b.Kind = "unrecoverable"
-			case 5, 6:
+			case 5:
 				b.Kind, b.D = "slow", sampled(t, "bd", 2, 5, 20)
+			case 6:
+				// completes successfully after D seconds, whatever happens to the flush context (D may exceed group_interval)
+				b.Kind, b.D = "slowx", sampled(t, "bdx", 3, 40, 70, 400)
 			default:
 				b.Kind = "hang"
 			}
